@@ -3,6 +3,7 @@ CONSTANTS
   Progs = {}
   NullCheckInDtor = TRUE
   MoveEmpties = TRUE
+  AssignSwaps = FALSE
 INVARIANTS FalseUntilFirstDestroy PollTruth
 POSTCONDITION Accepted
 CHECK_DEADLOCK FALSE
